@@ -2,11 +2,11 @@ module verifext
 
 go 1.23.0
 
-require github.com/tinode/chat v0.0.0
-
 require (
-	github.com/tinode/snowflake v1.0.0 // indirect
-	golang.org/x/crypto v0.37.0 // indirect
+	github.com/tinode/chat v0.0.0
+	golang.org/x/crypto v0.37.0
 )
+
+require github.com/tinode/snowflake v1.0.0 // indirect
 
 replace github.com/tinode/chat => /repo
